@@ -655,10 +655,15 @@ def main():
         results.extend(w.results)
 
     # 3. triage
-    cands = {}   # fingerprint -> (res, scenario, is_race)
+    cands = {}   # fingerprint -> (res, scenario, is_race): the smallest scenario showing it
+    alts = {}    # fingerprint -> further scenarios showing it (tried when the first does not reproduce alone:
+                 # a run can depend on process-global state left behind by the worker's earlier runs)
     def add_cand(res, sc, race=False):
         fp = fingerprint(res)
-        if fp not in cands or len(json.dumps(sc)) < len(json.dumps(cands[fp][1])):
+        size = len(json.dumps(sc))
+        alts.setdefault(fp, []).append((size, res, sc, race))
+        alts[fp] = sorted(alts[fp], key=lambda x: x[0])[:6]
+        if fp not in cands or size < len(json.dumps(cands[fp][1])):
             cands[fp] = (res, sc, race)
 
     for r in results:
@@ -700,6 +705,18 @@ def main():
         again = run_single(prop, sc, tier, binpath=binp, extra_env=xenv)
         if pick_fp(again, fp) is not None:
             again = pick_fp(again, fp)
+        if again.get("verdict") != "violation":
+            # this scenario does not show it alone; other scenarios with the same fingerprint may
+            for (_, res2, sc2, race2) in alts.get(fp, [])[1:]:
+                binp2 = RACE_BIN if race2 else BIN
+                xenv2 = {"VERIF_RACE": "1"} if race2 else None
+                again2 = run_single(prop, sc2, tier, binpath=binp2, extra_env=xenv2)
+                if pick_fp(again2, fp) is not None:
+                    again2 = pick_fp(again2, fp)
+                if again2.get("verdict") == "violation" and fingerprint(again2) == fp:
+                    log("note: candidate idx=%s did not reproduce alone, idx=%s with the same fingerprint does" % (res.get("idx"), res2.get("idx")))
+                    res, sc, race, binp, xenv, again = res2, sc2, race2, binp2, xenv2, again2
+                    break
         if again.get("verdict") != "violation" or fingerprint(again) != fp:
             # second chance: the fingerprint may legitimately differ in detail; accept same kind
             if again.get("verdict") == "violation":
